@@ -4,6 +4,8 @@
 -/
 import Distill.Props.RenderProps
 import Distill.Proofs.Render
+import Distill.Proofs.Srcset
+import Distill.Gen.Tables
 import Distill.Gen.Funcs
 namespace Distill.C06
 open Distill
@@ -61,6 +63,61 @@ theorem dedup_reads_unaffected (attrs : List Attr) (k : String) : getAttr (dedup
 
 example : dedupAttrs [⟨"href", "a"⟩, ⟨"class", "c"⟩, ⟨"href", "b"⟩, ⟨"HREF", "d"⟩, ⟨"class", "e"⟩] [] =
     [⟨"href", "a"⟩, ⟨"class", "c"⟩, ⟨"HREF", "d"⟩] := by decide
+
+
+/-! ### srcset values
+
+`absSet` above is the atom "what `makeSrcSetAbsolute` makes of a srcset value".  `Model/Srcset.lean`
+opens it: the regular expression `rxSrcsetURL` with Go's leftmost-first matching spelled out, the
+URLs `GetSrcSetURLs` returns and the value `makeSrcSetAbsolute` writes (the check runs it against the
+real functions on candidate lists and on token soup). -/
+
+/-- the regular expression the model spells out is the one in the source -/
+theorem srcset_regexp_tie :
+    Gen.modelledRegexps.lookup "internal/domutil.rxSrcsetURL" =
+      some "(?i)(\\S+)((?:\\s+[\\d.]+(?:e[+-]?\\d+)?[xwh])*)(\\s*(?:,|$))" := by decide +kernel
+
+/-- **Every candidate is found**: on candidates written `url d1 d2, url, url d` — URLs without white
+space that start neither with a comma nor with something that reads as a descriptor, any number of
+descriptors `[\d.]+(e[+-]?\d+)?[xwh]` — `GetSrcSetURLs` returns exactly the candidates' URLs, in
+order; for every number of candidates and descriptors. -/
+theorem srcset_candidates_found (cs : List Srcset.Cand) (h : ∀ c ∈ cs, Srcset.WFCand c) :
+    Srcset.urls (Srcset.render cs) = cs.map (·.url) := Srcset.urls_render cs h
+
+/-- **Every candidate is resolved, nothing else changes**: the value `makeSrcSetAbsolute` writes is
+the same candidate list with every URL replaced by its resolution (premise: a comma directly after a
+URL survives resolution, which the function relies on; measured on the real resolver by the check) -/
+theorem srcset_candidates_resolved (abs : List Char → List Char) (cs : List Srcset.Cand)
+    (h : ∀ c ∈ cs, Srcset.WFCand c) (hcomma : ∀ c ∈ cs, abs (c.url ++ [',']) = abs c.url ++ [',']) :
+    Srcset.rewrite abs (Srcset.render cs) = Srcset.render (cs.map fun c => { c with url := abs c.url }) :=
+  Srcset.rewrite_render abs cs h hcomma
+
+/-- … and reading the written value back (ContentImages does) yields the resolved URLs -/
+theorem srcset_resolved_read_back (abs : List Char → List Char) (cs : List Srcset.Cand)
+    (h : ∀ c ∈ cs, Srcset.WFCand c) (hcomma : ∀ c ∈ cs, abs (c.url ++ [',']) = abs c.url ++ [','])
+    (habs : ∀ c ∈ cs, Srcset.WFUrl (abs c.url)) :
+    Srcset.urls (Srcset.rewrite abs (Srcset.render cs)) = cs.map (fun c => abs c.url) :=
+  Srcset.urls_rewrite_render abs cs h hcomma habs
+
+/-! non-vacuity: a candidate list with two descriptors, an exponent density and a bare URL meets the
+premises; and the model on the written-out value -/
+example : ∀ c ∈ [(⟨"img/a.jpg".toList, ["400w".toList, "300h".toList]⟩ : Srcset.Cand), ⟨"../b.png".toList, []⟩,
+    ⟨"2020/c.gif".toList, ["1e0x".toList]⟩], Srcset.WFCand c := by
+  intro c hc
+  simp only [List.mem_cons, List.not_mem_nil, or_false] at hc
+  rcases hc with rfl | rfl | rfl <;>
+    (refine ⟨⟨by decide, by decide, by decide, by decide⟩, ?_⟩; intro d hd;
+     simp only [List.mem_cons, List.not_mem_nil, or_false] at hd) <;>
+    first
+      | (rcases hd with rfl | rfl <;> (unfold Srcset.WFDesc; decide))
+      | (rcases hd with rfl; unfold Srcset.WFDesc; decide)
+      | cases hd
+
+example : Srcset.urls "img/a.jpg 400w 300h, ../b.png, 2020/c.gif 1e0x".toList =
+    ["img/a.jpg".toList, "../b.png".toList, "2020/c.gif".toList] := by decide +kernel
+
+example : String.ofList (Srcset.rewrite (fun u => "http://e/".toList ++ u) "img/a.jpg 400w 300h, b.png,c.gif 2x".toList) =
+    "http://e/img/a.jpg 400w 300h, http://e/b.png,c.gif 2x" := by decide +kernel
 
 /-! non-vacuity -/
 example : ((processClone (fun s => "http://e/" ++ s) (fun s => "S:" ++ s)
